@@ -380,7 +380,7 @@ func judgeVariant(c0 *cas, variant int, shared bool) *core.Verdict {
 }
 
 func check(r *core.Run) {
-	r.Rule = "A: identities in fixed slots (a:x in module a, a:y in its submodule, b:x and b:y in the imported module; thorough: c:x, c:y in a third module importing both), each present or absent with up to two bases among the other slots, itself and an undefined name (enumerated over edges, not spellings; own-module bases spelled with and without prefix); Identities.tla visits the dictionary in every order; each distinct program is rendered and processed 4 times under different load orders: error presence (undefined base, cycle), the value set of every identity, no duplicates, the list seen through every identityref leaf, and identical sequences across the 4 runs. Non-trivial = at least two identities."
+	r.Rule = "A: identities in fixed slots (a:x in module a, a:y in its submodule, b:x and b:y in the imported module; thorough: c:x, c:y in a third module importing both), each present or absent with up to two bases among the other slots, itself and an undefined name (enumerated over edges, not spellings; own-module bases spelled with and without prefix); Identities.tla visits the dictionary in every order; each distinct program is rendered and processed 4 times under different load orders: error presence (undefined base, cycle), the value set of every identity, no duplicates, the list seen through every identityref leaf, and identical sequences across the 4 runs. Non-trivial = at least two identities. Every program is rendered five ways (submodule included directly, reached only through another submodule, next to sibling submodules, own-module bases written twice in both spellings, all modules declaring the same own prefix). B: random derivation graphs of up to ~30 identities over 2-4 modules with submodules, loaded in two orders, judged by IdentitiesTrace.tla."
 	r.Exhaustive = true
 	r.Assumptions = []string{"the order must be a function of the schema; which function is not prescribed, so sequences are compared between runs, sets with the specification"}
 	cfgs := []string{"quick"}
